@@ -100,6 +100,32 @@ def run(run, replay=None):
     for kind, what in probs[:1]:
         fails.append((kind, {"kind": kind, "phase": "concurrent"},
                       {"history": "RegisterWord while 4 other connections convert and confirm", "result": what, "registrations_applied": obs["registrations"]}))
+    # homophones of one kind queued back to back while the updater is busy: each acknowledged registration must be applied
+    import time as _time
+    srvq = S.Server(bindir, dic, None, workers=4, env={"CHOKAN_VERIF_DELAY_UPDATER": "150"})
+    try:
+        if srvq.wait_listening():
+            sent = []
+            for rd, words, kind in [("こうえん", ["公園", "講演", "公演", "後援"], "CommonNoun"), ("きかん", ["機関", "期間", "器官"], "CommonNoun"),
+                                    ("さとう", ["佐藤", "左藤"], "ProperNoun"), ("かえない", ["買えない", "飼えない", "変えない"], "Guess")]:
+                for wd_ in words:
+                    if srvq.rpc("RegisterWord", {"kind": kind, "reading": rd, "word": wd_})[0] == "ok":
+                        sent.append((kind, rd, wd_))
+            stats["queued_homophones"] = len(sent)
+            S.wait_until(lambda: (lambda d: d is not None and len(d["user_entries"]) >= len(sent))(srvq.dump()), 8.0)
+            _time.sleep(0.3)
+            for kind, rd, wd_ in sent:
+                probe_rd = rd if kind != "Guess" else rd[:-2]
+                probe_w = wd_ if kind != "Guess" else wd_[:-2]
+                got = S.texts(srvq.conv(probe_rd)) or []
+                if not any(t.startswith(probe_w) for t in got):
+                    dmp = srvq.dump()
+                    fails.append(("not-convertible", {"kind": "not-convertible", "phase": "queued-homophones"},
+                                  {"history": "homophones of one kind registered back to back while the updater is delayed",
+                                   "registration": [kind, rd, wd_], "candidates": got, "user_entries": dmp and dmp["user_entries"]}))
+                    break
+    finally:
+        srvq.stop()
     dis2 = S.compare_with_model(run, runners)
     run.cov["server_model_disagreements"] = len(dis2)
     seen = set()
